@@ -43,3 +43,11 @@ def install(w):
     w.contract(f"{OF}.do_types_conflict", params={"type1": "ty", "type2": "ty"}, returns="bool",
                ensures=["result == (not SameShapeW(type1, type2))"],
                decreases="ty_rank(type1) + ty_rank(type2)", props={"C14"})
+
+    D = "graphql.type.definition"
+    w.contract(f"{D}.is_input_type", params={"type_": "ty"}, returns="bool",
+               ensures=["result == InputTy(type_)"], decreases="ty_rank(type_)",
+               props={"C20", "C15", "C13"})
+    w.contract(f"{D}.is_output_type", params={"type_": "ty"}, returns="bool",
+               ensures=["result == OutputTy(type_)"], decreases="ty_rank(type_)",
+               props={"C20"})
